@@ -5,7 +5,7 @@
     of each byte first). *)
 From Coq Require Import ZArith List Bool.
 From Low Require Import Lib.Bits Lib.BitSeq Lib.Lex Lib.Bytes Lib.LexExtra_sig Model.Sigbits Model.Sigbits32 Model.SigbitsQueries Spec.SigbitsSpec
-  Spec.SigbitsSpec16x Proofs.SigbitsFirstDiff Proofs.SigbitsCountPrefixes Proofs.SigbitsMeaning Proofs.SigbitsCounters Proofs.SigbitsOrder Proofs.Sigbits32Proofs Proofs.SigbitsQueriesProofs.
+  Spec.SigbitsSpec16x Proofs.SigbitsFirstDiff Proofs.SigbitsCountPrefixes Proofs.SigbitsMeaning Proofs.SigbitsCounters Proofs.SigbitsOrder Proofs.Sigbits32Proofs Proofs.SigbitsQueriesProofs Proofs.SigbitsCounterKeys.
 Import ListNotations.
 Open Scope Z_scope.
 
@@ -249,6 +249,15 @@ Theorem C16_spec_fast_agrees : forall keys s e m,
   spec_CountPrefixes_fast keys s e m = spec_CountPrefixes keys s e m.
 Proof. exact spec_CountPrefixes_fast_agrees. Qed.
 Print Assumptions C16_spec_fast_agrees.
+
+(** the key family of the large-set operations (prefix + w-byte big-endian counter c0 .. c0+n-1)
+    lies in the domain of [C16_CountPrefixes] for every size n: the hypotheses of that theorem are
+    satisfiable by key sets of any length *)
+Theorem C16_counter_keys_domain : forall p w c0 n,
+  bytes_ok p -> 0 <= w -> 0 <= c0 -> 0 <= n -> c0 + n <= 256 ^ w ->
+  keys_ok (counter_keys p w c0 n) /\ strict_asc (counter_keys p w c0 n) /\ zlen (counter_keys p w c0 n) = n.
+Proof. exact counter_keys_domain. Qed.
+Print Assumptions C16_counter_keys_domain.
 
 Example C16_queries_nonvacuous :
   let keys := [[107;0;254]; [107;0;255]; [107;1;0]; [107;1;1]; [107;1;2]] in
